@@ -241,6 +241,15 @@ Fixpoint py_heappush {A} (lt : A -> A -> bool) (h : list A) (x : A) : list A :=
   | e :: r => if lt x e then x :: h else e :: py_heappush lt r x
   end.
 
+(** [sorted(l, key=f)] with an integer key: Python's sort is stable (elements
+    with equal keys keep their order). *)
+Fixpoint py_ins_by {A} (key : A -> Z) (x : A) (l : list A) : list A :=
+  match l with
+  | [] => [x]
+  | y :: r => if key x <=? key y then x :: l else y :: py_ins_by key x r
+  end.
+Definition py_sorted_by {A} (key : A -> Z) (l : list A) : list A := fold_right (py_ins_by key) [] l.
+
 (* ------------------------------------------------------------------ *)
 (** Shape-independent automation for tie lemmas: case-split on every boolean test
     and every option scrutinee that occurs in the goal, then close by computation /
